@@ -140,6 +140,79 @@ Section Enc.
     | Some b => if (366 <? lenN b)%N then None else if (lenN b <? 45)%N then None else sm2_decrypt d b
     end.
 
+  (* ---------- sm2_encrypt_pre_compute (8 nonces, C1 = [k]G made affine with ONE shared inversion,
+     exactly as coded: see batch_inv in Ec/SM2Sign.v) and sm2_do_encrypt_ex.  [zs] = the Jacobian Z
+     coordinates produced by sm2_z256_point_mul_generator (not observable; theorem
+     enc_pre_compute_eq_partial shows the result does not depend on them). ---------- *)
+  Definition enc_pre_slot (ks zs zinv : list Z) (i : nat) : Z * (Z * Z) :=
+    let k := nth i ks 0 in
+    let P := sm2_mulG NO k in
+    let z := nth i zs 1 in
+    let zi := nth i zinv 0 in
+    let y1 := mulm sm2_p (jac_Y NO P z) zi in       (* Y * Z^-1 *)
+    let z2 := mulm sm2_p zi zi in                    (* Z^-2 *)
+    (k, (mulm sm2_p (jac_X NO P z) z2, mulm sm2_p y1 z2)).
+  Definition enc_pre_compute (zs : list Z) (en : ent) : option (list (Z * (Z * Z)) * ent) :=
+    match draw_ks 8 en with
+    | None => None
+    | Some (ks, en') =>
+      let Zs := map (fun i => jac_Z NO (sm2_mulG NO (nth i ks 0)) (nth i zs 1)) (seq 0 8) in
+      let zinv := batch_inv sm2_p (inv_p NO) Zs in
+      Some (map (enc_pre_slot ks zs zinv) (seq 0 8), en')
+    end.
+
+  (* sm2_do_encrypt_ex: 1 / 0 (KDF output all zero: caller must take another slot) / -1 *)
+  Inductive exres := ExOk (c : sm2_ct) | ExRetry | ExErr.
+  Definition do_encrypt_ex (P : pt) (pc : Z * (Z * Z)) (m : list N) : exres :=
+    if negb (len_ok m) then ExErr
+    else
+      let kP := sm2_mul NO (fst pc) P in
+      let x2 := to32 (get_x NO kP) in
+      let y2 := to32 (get_y NO kP) in
+      let t := sm2_kdf (x2 ++ y2) (length m) in
+      if all_zero t then ExRetry
+      else ExOk (mkct (to32 (fst (snd pc))) (to32 (snd (snd pc))) (c3_hash x2 m y2) (xor_bytes t m)).
+
+  (* SM2_ENC_CTX when the library is built with -DENABLE_SM2_ENC_PRE_COMPUTE=1: init pre-computes
+     8 slots, every finish takes slot num-1 (refill at 0); a 0 from sm2_do_encrypt_ex is an error.
+     One round = updates, finish, reset. *)
+  Fixpoint pre_rounds (zs : list Z) (P : pt) (pre : list (Z * (Z * Z))) (num : nat)
+           (rounds : list (list (list N))) (en : ent) : option (list (list N) * ent) :=
+    match rounds with
+    | [] => Some ([], en)
+    | chunks :: rest =>
+      match fold_left (buf_update 255) chunks (Some []) with
+      | None => None
+      | Some b =>
+        if (255 <? lenN b)%N then None else if (lenN b =? 0)%N then None
+        else
+          match (if Nat.eqb num 0
+                 then match enc_pre_compute zs en with
+                      | None => None
+                      | Some (pre', en') => Some (pre', 8%nat, en')
+                      end
+                 else Some (pre, num, en)) with
+          | None => None
+          | Some (pre1, num1, en1) =>
+            let num' := (num1 - 1)%nat in
+            match do_encrypt_ex P (nth num' pre1 (0, (0, 0))) b with
+            | ExOk c =>
+              match pre_rounds zs P pre1 num' rest en1 with
+              | None => None
+              | Some (outs, en2) => Some (ct_to_der c :: outs, en2)
+              end
+            | _ => None
+            end
+          end
+      end
+    end.
+  Definition encrypt_ctx_pre (zs : list Z) (P : pt) (rounds : list (list (list N))) (en : ent)
+    : option (list (list N) * ent) :=
+    match enc_pre_compute zs en with
+    | None => None
+    | Some (pre, en') => pre_rounds zs P pre 8 rounds en'
+    end.
+
   (* ---------- point import for ECDH: sm2_z256_point_from_octets ---------- *)
   Fixpoint fpow_pos (x : T NO) (e : positive) : T NO :=
     match e with
